@@ -13,6 +13,7 @@ import (
 	"reflect"
 	"sort"
 	"strings"
+	"unicode"
 	"unicode/utf8"
 
 	"Havoc/pkg/profile"
@@ -139,7 +140,7 @@ type c14Gen struct {
 }
 
 var c14Strings = []string{"", "a", "127.0.0.1", "C:\\Windows\\System32\\notepad.exe", "pa ss\"word", "line1\nline2", "tab\there", "${not.interp}", "%{ if x }", "100%", "$HOME", "a$${b",
-	"ünïcödé", "日本語", "😀 smile", "trailing\\", "5", "true", "null", "cr\rlf\n", "{\"json\": [1,2]}", "# not a comment", "// nor this", "/* nor */ this", "<<EOT", "x = y", "$$", "%%", "$${", "a${\"b\"}c", "price: 5$$\nnext line\n", "100%%\n", "a $ b % c\n", "first\nsecond\n"}
+	"ünïcödé", "日本語", "😀 smile", "trailing\\", "5", "true", "null", "cr\rlf\n", "{\"json\": [1,2]}", "# not a comment", "// nor this", "/* nor */ this", "<<EOT", "x = y", "$$", "%%", "$${", "a${\"b\"}c", "price: 5$$\nnext line\n", "100%%\n", "a $ b % c\n", "first\nsecond\n", "a\n\nb\n", "x\n  indented\n\nlast\n", "top\n\n", "\nafter an empty first line\n"}
 
 func (g *c14Gen) str() string {
 	if g.nonNFC && g.r.Chance(1, 8) {
@@ -314,6 +315,28 @@ func (g *c14Gen) writeVal(name string, fv reflect.Value) string {
 		s := fv.String()
 		// a heredoc for multi-line text that ends with a newline and has nothing a template would interpret
 		if strings.HasSuffix(s, "\n") && !strings.Contains(s, "\r") && !strings.Contains(s, "${") && !strings.Contains(s, "%{") && !strings.Contains(s, "EOT") && utf8.ValidString(s) && g.r.Chance(1, 2) {
+			// the flush form: every line that is not blank gets the same extra indentation, which the loader takes off again;
+			// possible when some non-blank line starts at column 0 (the common indentation is then exactly what was added)
+			lines := strings.SplitAfter(s, "\n")
+			col0 := false
+			for _, l := range lines {
+				if t := strings.TrimLeftFunc(l, unicode.IsSpace); t != "" && t == l {
+					col0 = true
+				}
+			}
+			if col0 && g.r.Chance(1, 2) {
+				ind := strings.Repeat(" ", 1+g.r.Intn(6))
+				var b strings.Builder
+				b.WriteString("<<-EOT\n")
+				for _, l := range lines {
+					if strings.TrimLeftFunc(l, unicode.IsSpace) == "" {
+						b.WriteString(l) // a blank line stays as it is
+					} else {
+						b.WriteString(ind + l)
+					}
+				}
+				return b.String() + strings.Repeat(" ", g.r.Intn(4)) + "EOT"
+			}
 			return "<<EOT\n" + s + "EOT"
 		}
 		return g.quote(name, s)
